@@ -18,8 +18,9 @@ EXPLANATION = (
     "Finite-exhaustive: the automat declaration is obtained by interpreting makeMachine against a recording model of the builder (loops "
     "over constant tables, decorators, plain registrar calls all read alike); that yields the COMPLETE finite table (7 states x 7 "
     "inputs). Resource roles come from where each state factory hands out c.<input> (addCallback/addErrback = attempt, constructor "
-    "argument = spawned connection, callLater = timer) and ordered waiter effects of every factory / body are extracted statically "
-    "(derived from what the _Core methods do to their lists). Every configuration of the abstract domain (state x {0,1,2+} attempts / "
+    "argument = spawned connection, callLater = timer); the effect of every factory / body on the two waiter lists (set / clear / "
+    "keep), and whether it cancels its state's resource, is tabulated by interpreting it once with empty and once with pending waiter "
+    "lists (local helpers and bound methods passed as values are followed; the static source-order extraction is kept as a cross-check). Every configuration of the abstract domain (state x {0,1,2+} attempts / "
     "connections / timers x pending connect / stop waiters x last public request) is explored under automat's semantics, so the "
     "verdicts are for-all over that domain: every input a resource can still produce and every public input has a transition; no "
     "attempt starts while one is open, no second timer; after a stop no attempt / retry starts, an idle stopped service rests in a state "
@@ -43,11 +44,12 @@ RULE_KINDS = {
     "waiters/resolved-on-entry": "finite-exhaustive", "stop-waiters/": "finite-exhaustive",
     "waiters/failure-limit": "finite-exhaustive",          # limit classes {None, <=1, >1}: see waiters/failure-limit-domain
     # structural: effects / def-use / CFG on the (normalised) source
-    "stop/": "structural", "attempt/": "structural", "service/": "structural", "waiters/list-swapped-before-firing": "structural",
+    "attempt/": "structural", "service/": "structural", "waiters/list-swapped-before-firing": "structural",
     "waiters/failure-limit-domain": "structural", "retry/schedules-policy-delay": "structural",
     # bounded: concrete runs on sample values / the ghost counter explored up to 3 consecutive failures
     "retry/delay-counts-consecutive-failures": "bounded", "retry/factory-run": "bounded", "waiters/each-fired-once": "bounded",
     "waiters/swap-order-run": "bounded", "waiters/queued-with-limit": "bounded",
+    "stop/": "bounded",   # observed in one interpreted run of the stop transition's body (cancel / loseConnection call-outs)
 }
 ASSUMPTIONS = [
     "automat: first declared state is initial; a data-state factory runs before the transition body and only when the target differs "
@@ -366,7 +368,34 @@ class Concrete:
         for name in sorted(names):
             self._tabulate(name)
 
-    def _run(self, name, fa):
+    def effects(self, name, has_data):
+        """Abstract effects of one factory / body, tabulated by interpreting it with empty and with pending waiter lists:
+        ['W+'|'W-'] ['SW+'|'SW-'] ['cancel'] ['lose'] (same vocabulary as the static extraction)."""
+        out = []
+        res = {}
+        for pending in (0, 1):
+            try:
+                res[pending] = self._run(name, 0, pending=pending, want_state=True)
+            except (AnalysisError, Nonterminating, Exception) as e:  # noqa: B902
+                raise AnalysisError(f"C58: {name} cannot be interpreted to tabulate its effects: {type(e).__name__}: {e}")
+        for tag, idx in (("W", 0), ("SW", 1)):
+            a, b = res[0][4][idx], res[1][4][idx]     # list non-empty afterwards, starting empty / starting with one pending entry
+            if a and b:
+                out.append(tag + "+")
+            elif not a and not b:
+                out.append(tag + "-")
+            elif a and not b:
+                raise AnalysisError(f"C58: {name} toggles the {tag} waiter list; not a set / clear / keep effect")
+        log = res[1][5]
+        f = self.m.funcs[name]
+        pos = f.args.posonlyargs + f.args.args
+        if has_data and len(pos) > 2 and any(x[0] == f"{pos[2].arg}.cancel" for x in log):
+            out.append("cancel")
+        if any(x[0].split(".")[-1] in ("loseConnection", "abortConnection") for x in log if x[0] != "setattr"):
+            out.append("lose")
+        return out
+
+    def _run(self, name, fa, pending=0, want_state=False):
         calls = []
 
         def policy(*a, **k):
@@ -374,6 +403,9 @@ class Concrete:
             return ("DELAY",) + a
         it, core, closure, log = model_core(self.mod, self.m.funcs, policy)
         core.attrs["failedAttempts"] = fa
+        if pending:
+            core.attrs["awaitingConnected"] = [(Mock("pendingWaiter", log), None)]
+            core.attrs["stopWaiters"] = [Mock("pendingStopWaiter", log)]
         f = closure[name]
         a = f.node.args
         pos = a.posonlyargs + a.args
@@ -381,6 +413,9 @@ class Concrete:
         args = [Mock("c", log), core] + [Mock(p.arg, log) for p in pos[2:need]]
         ret = f(*args)
         later = [x[1] for x in log if x[0] == "clock.callLater"]
+        if want_state:
+            state = (bool(core.attrs.get("awaitingConnected")), bool(core.attrs.get("stopWaiters")))
+            return core.attrs.get("failedAttempts"), calls, later, ret, state, [x for x in log if x[0] != "setattr"]
         return core.attrs.get("failedAttempts"), calls, later, ret
 
     def _tabulate(self, name):
@@ -416,8 +451,30 @@ class Explorer:
         ra = self.res.get(self.att_state, {"cb": set(), "eb": set(), "spawn": set(), "timer": set()})
         self.cb, self.eb, self.spawn = sorted(ra["cb"]), sorted(ra["eb"]), sorted(ra["spawn"])
         self.timer = sorted(self.res[self.ret_state]["timer"]) if self.ret_state else []
-        self.fx_factory = {n: effects_of(m.funcs.get(f), core_sem, True, False) for n, f in m.factory.items()}
-        self.fx_body = {k: effects_of(t["body"], core_sem, t["nodata"], t["src"] in self.data_states) for k, t in m.trans.items()}
+        static_factory = {n: effects_of(m.funcs.get(f), core_sem, True, False) for n, f in m.factory.items()}
+        static_body = {k: effects_of(t["body"], core_sem, t["nodata"], t["src"] in self.data_states) for k, t in m.trans.items()}
+        self.fx_factory = {n: ([e for e in conc.effects(f, False) if e != "lose"] if f else []) for n, f in m.factory.items()}
+        self.fx_body, self.loses = {}, {}
+        for k, t in m.trans.items():
+            if t["body"] is None:
+                self.fx_body[k] = []
+                continue
+            fx = conc.effects(t["body"].name, t["src"] in self.data_states and not t["nodata"])
+            self.loses[k] = "lose" in fx
+            self.fx_body[k] = [e for e in fx if e != "lose"]
+        # the static (source-order) extraction is kept as a cross-check: where it differs it did not fully understand the body
+        def net(fx):
+            out = {}
+            for e in fx:
+                out[e.rstrip("+-")] = e
+            return sorted(out.values())
+        for k, fx in self.fx_body.items():
+            if net(static_body[k]) != net(fx):
+                ctx.note(f"effects of {m.trans[k]['body'].name} ({k[0]} x {k[1]}): static extraction {static_body[k]} differs from the interpreted table {fx} "
+                         "(helper / bound method passed as a value); the interpreted table is used")
+        for n, fx in self.fx_factory.items():
+            if net(static_factory[n]) != net(fx):
+                ctx.note(f"effects of the factory of {n}: static extraction {static_factory[n]} differs from the interpreted table {fx}; the interpreted table is used")
         self.immediate_when = set()   # states answering whenConnected without queueing a waiter
         self.immediate_stop = set()   # states answering stop without creating a stop waiter
         for (s, i), t in m.trans.items():
@@ -722,12 +779,11 @@ def check_attempt(ctx, m, ex):
     wraps = [x for x in ast.walk(bp) if isinstance(x, ast.Call) and call_name(x) == "_ReconnectingProtocolProxy"]
     ctx.check(len(wraps) == 1 and len(wraps[0].args) == 2 and src(wraps[0].args[1]) == "self._protocolDisconnected", "attempt/disconnect-always-reported",
               "twisted.application._client_service._DisconnectFactory.buildProtocol", "built protocols are not wrapped with the disconnect notification")
-    # stop in the connected state asks the transport to close
+    # stop in the connected state asks the transport to close (observed in the interpreted run of the body)
     for k, t in m.trans.items():
         if t["inp"] == "stop" and t["src"] in ex.immediate_when and m.factory.get(t["src"]) and t["body"] is not None:
-            b = t["body"]
-            lose = [x for st in b.body for x in walk_local(st) if isinstance(x, ast.Call) and call_attr(x) in ("loseConnection", "abortConnection")]
-            ctx.check(bool(lose), "stop/closes-connection", QM + "." + b.name, "stop while connected no longer closes the connection: the stop Deferred waits forever")
+            ctx.check(ex.loses.get(k, False), "stop/closes-connection", QM + "." + t["body"].name,
+                      "stop while connected no longer closes the connection: the stop Deferred waits forever")
 
 
 # ---- structural: swap-before-fire ordering, retry scheduling def-use (normalised view) ----------------------------------------
@@ -1065,5 +1121,8 @@ SILENT = [
     Silent("failure-accounting-in-module-helper", CS, "        ready = []\n        notReady: list[tuple[Deferred[IProtocol], Optional[int]]] = []\n        for w, remaining in s.awaitingConnected:\n            if remaining is None:\n                notReady.append((w, remaining))\n            elif remaining <= 1:\n                ready.append(w)\n            else:\n                notReady.append((w, remaining - 1))\n        s.awaitingConnected = notReady\n",
            "        ready, s.awaitingConnected = _splitWaiters(s.awaitingConnected)\n",
            more=[(CS, "def makeMachine() -> Callable[[_Core], _Client]:\n", "def _splitWaiters(pending):\n    due, later = [], []\n    for w, left in pending:\n        if left is not None and left <= 1:\n            due.append(w)\n        else:\n            later.append((w, left if left is None else left - 1))\n    return due, later\n\n\ndef makeMachine() -> Callable[[_Core], _Client]:\n")]),
+    Silent("stop-transitions-share-a-local-helper", CS, "        waited = s.waitForStop()\n        attempt.cancel()\n        return waited\n", "        return haltThenWait(s, attempt.cancel)\n",
+           more=[(CS, "        waited = s.waitForStop()\n        protocol._transport.loseConnection()\n        return waited\n", "        return haltThenWait(s, protocol._transport.loseConnection)\n"),
+                 (CS, "    # States:\n", "    def haltThenWait(s: _Core, halt: Callable[[], object]) -> Deferred[None]:\n        waited = s.waitForStop()\n        halt()\n        return waited\n\n    # States:\n")]),
     Silent("failure-limit-rewritten", CS, "            elif remaining <= 1:\n", "            elif not remaining > 1:\n"),
 ]
